@@ -309,7 +309,11 @@ class Stmts(Calls):
                 if h.kind == 'dict':
                     vl = self.lift(v, s) if not isinstance(v, Ref) else v
                     if isinstance(vl, Ref):
-                        raise Outside("dict of mutable objects at line %s" % tgt.lineno)
+                        if h.val is not None and h.val.ty.args[1] == INT:
+                            # a map declared to hold objects as opaque ids (only its key set matters to the contracts)
+                            v = vl = V(z3.IntVal(vl.loc), INT)
+                        else:
+                            raise Outside("dict of mutable objects at line %s" % tgt.lineno)
                     if h.val is None:
                         kl = self.lift(key, s)
                         mty = MAP(kl.ty, vl.ty)
@@ -464,6 +468,9 @@ class Stmts(Calls):
                 if h.val is None:
                     return 0, None
                 it = h.val
+            elif h.kind in ('dict', 'set') and h.val is not None:
+                # `for k in d`: the keys, each once, in an unknown order (A-ITER)
+                return self.iter_view(self.enumerate_map(h.val, 'keys', st), st)
             else:
                 raise Outside("iteration over mutable %s" % h.kind)
         if isinstance(it, (list,)):
@@ -676,6 +683,14 @@ class Stmts(Calls):
         if is_for:
             body_st.assume(z3.And(i >= 0, self.b(self._lt(i, n))))
         body_st.frame.vars['!idx:' + spec.index_name] = V(i, INT)
+        try:
+            first = f(V(z3.IntVal(0), INT))
+            if isinstance(first, V) and first.t is not None and z3.is_app_of(first.t, z3.Z3_OP_SEQ_NTH):
+                seq_t = first.t.arg(0)
+                body_st.frame.vars['ITERATED'] = V(seq_t, LIST(first.ty))
+                st.frame.vars['ITERATED'] = V(seq_t, LIST(first.ty))
+        except Exception:
+            pass
         self.assume_invariant(body_st, spec, V(i, INT), n)
         body_st.trace.append("L%s:loop-body" % node.lineno)
         exits = []      # break paths
